@@ -69,6 +69,10 @@ CHECKS = {
    tech="TLA+ spec Index.tla (index / re-ranker snapshots over histories of load, merge, replace, grow): TLC exhaustive; real histories compared with a freshly loaded database and random/shipped databases compared with a reference scan and a BM25F kernel; TLC validates the recorded observations (TraceSearch.tla TScan/THist, recomputing the scan from token ids for small databases)",
    text="TLC explores every history (<= 4/5 steps) of load, merge, replace, grow and search and checks that index and re-ranker snapshots equal the command list whenever a search reads them (a re-ranker rebuilt only on load/merge is the defect switch); real databases are put through random histories (LoadDatabaseWithPersonal, UpdateDatabase, appending to Commands, intermediate searches) and their NLP-on/off answers compared with a freshly loaded database; random databases with hostile field contents (Unicode, punctuation, duplicates, empty fields) and the shipped one are searched and compared with a reference scan and BM25F scores recomputed from the texts; for small databases TLC recomputes the candidate set from token ids.",
    note="Float scores checked by a harness-side kernel (tolerance 1e-9); tokeniser rule is the trusted reference."),
+ "C08": dict(cat="model_checking", ref="DESIGN.md section 5, C08",
+   tech="TLA+ spec Notebook.tla: TLC exhaustive over save histories from every initial notebook class; every transition executed by the real binary (wtf save / save-pipeline, isolated home); TLC trace validation of walker and random (hostile-argument) save sequences",
+   text="TLC explores every sequence of up to 3/4 saves over 3 command strings x 2 field variants from missing, damaged, empty and populated notebooks and checks fidelity, untouched neighbours, replace-not-duplicate and that a reported failure changes nothing; each transition of the dumped graph is run as a real process and the notebook re-read with the repository's loader; random sequences use hostile argument strings through both sub-commands; TLC validates every recorded save: reported success implies the notebook is exactly replace-or-append of the expected entry, the entry is found by the next search, and the search database is main entries followed by notebook entries.",
+   note="~5 ms per process; trusted: the expectation of how list flags split (encoding/csv)."),
 }
 NOT_APPLICABLE = {}
 
